@@ -5,6 +5,19 @@
 //@extract src/core/candles.rs enum:Source keepderive
 //@end
 
+// the documented value of candle.source(kind), as a real function of the five observations
+pub open spec fn src_val5(o: real, h: real, l: real, c: real, v: real, kind: Source) -> real {
+	match kind {
+		Source::Close => c,
+		Source::High => h,
+		Source::Low => l,
+		Source::Open => o,
+		Source::Volume => v,
+		Source::TP => (h + l + c) / 3real,
+		Source::HL2 => (h + l) / 2real,
+		Source::VolumedPrice => (h + l + c) / 3real * v,
+	}
+}
 pub trait OHLCV {
 	// the five accessors are pure observations of the candle
 	spec fn open_s(&self) -> ValueType;
@@ -69,6 +82,7 @@ pub trait OHLCV {
 //@end
 //@extract src/core/ohlcv.rs trait[OHLCV]::source
 	ensures
+		r@ == src_val5(self.open_s()@, self.high_s()@, self.low_s()@, self.close_s()@, self.volume_s()@, source),
 		source == Source::Close ==> r == self.close_s(),
 		source == Source::High ==> r == self.high_s(),
 		source == Source::Low ==> r == self.low_s(),
@@ -98,6 +112,10 @@ pub trait OHLCVTr: OHLCV {
 //@end
 }
 impl<T: OHLCV> OHLCVTr for T {}
+
+pub open spec fn src_val<T: OHLCV>(c: &T, kind: Source) -> real {
+	src_val5(c.open_s()@, c.high_s()@, c.low_s()@, c.close_s()@, c.volume_s()@, kind)
+}
 
 // R10: an arbitrary `dyn OHLCV` value: five uninterpreted, pure accessors
 #[verifier::external_body]
